@@ -20,7 +20,6 @@ impl<'a> Iter<'a> {
     /// Creates an iterator for enumerating integers from position `k`.
     pub fn new(ef: &'a EliasFano, k: usize) -> Self {
         debug_assert!(ef.low_len < 64);
-        debug_assert_ne!(ef.high_bits.num_ones(), 0);
 
         let low_buf = 0;
         let low_mask = (1 << ef.low_len) - 1;
